@@ -30,6 +30,12 @@ type WellKnownResult struct {
 // LookupWellKnown looks up a well-known record for a matrix server. If one if
 // found, it returns the server to redirect to.
 func LookupWellKnown(ctx context.Context, serverNameType spec.ServerName) (*WellKnownResult, error) {
+	return lookupWellKnown(ctx, serverNameType, nil)
+}
+
+// lookupWellKnown does the same thing as LookupWellKnown, except that the request is
+// made through the given transport. http.DefaultTransport is used if it is nil.
+func lookupWellKnown(ctx context.Context, serverNameType spec.ServerName, transport http.RoundTripper) (*WellKnownResult, error) {
 	serverName := string(serverNameType)
 
 	// Handle ending "/"
@@ -43,7 +49,7 @@ func LookupWellKnown(ctx context.Context, serverNameType spec.ServerName) (*Well
 		return nil, err
 	}
 	// Given well-known should be quite small and fast to fetch, timeout the request after 30s.
-	client := http.Client{Timeout: time.Second * 30}
+	client := http.Client{Timeout: time.Second * 30, Transport: transport}
 	resp, err := client.Do(req)
 	if err != nil {
 		return nil, err
